@@ -732,4 +732,176 @@ theorem wRun_fifo (ops : List WOp) : ∀ s : WSt,
     rw [ih, wStep_fifo, enqueued_cons o r]
     simp [List.append_assoc]
 
+/-! ## CRC-8: linearity of the table and burst errors -/
+
+def T (x : Nat) : Nat := Gen.crc8Table.getD x 0
+
+theorem crc8_lin_lo : ((List.range 256).all fun a => (List.range 16).all fun b => T (a ^^^ b) == (T a ^^^ T b)) = true := by
+  decide +kernel
+
+theorem crc8_lin_hi : ((List.range 256).all fun a => (List.range 16).all fun h =>
+    T (a ^^^ 16 * h) == (T a ^^^ T (16 * h))) = true := by
+  decide +kernel
+
+theorem split16 : ((List.range 256).all fun b => b == (16 * (b / 16) ^^^ b % 16)) = true := by decide +kernel
+
+theorem T_zero : T 0 = 0 := by decide
+
+theorem T_lin (a b : Nat) (ha : a < 256) (hb : b < 256) : T (a ^^^ b) = T a ^^^ T b := by
+  have lo : ∀ x l, x < 256 → l < 16 → T (x ^^^ l) = T x ^^^ T l := by
+    intro x l hx hl
+    have := crc8_lin_lo
+    rw [List.all_eq_true] at this
+    have := this x (List.mem_range.mpr hx)
+    rw [List.all_eq_true] at this
+    simpa using this l (List.mem_range.mpr hl)
+  have hi : ∀ x h, x < 256 → h < 16 → T (x ^^^ 16 * h) = T x ^^^ T (16 * h) := by
+    intro x h hx hh
+    have := crc8_lin_hi
+    rw [List.all_eq_true] at this
+    have := this x (List.mem_range.mpr hx)
+    rw [List.all_eq_true] at this
+    simpa using this h (List.mem_range.mpr hh)
+  have sp : b = 16 * (b / 16) ^^^ b % 16 := by
+    have := split16
+    rw [List.all_eq_true] at this
+    simpa using this b (List.mem_range.mpr hb)
+  have hh : b / 16 < 16 := by omega
+  have hl : b % 16 < 16 := by omega
+  have h16 : 16 * (b / 16) < 256 := by omega
+  rw [sp, ← Nat.xor_assoc, lo _ _ (xor_lt a _ ha h16) hl, hi a _ ha hh, lo _ _ h16 hl, Nat.xor_assoc]
+
+theorem T_eq_zero (x : Nat) (hx : x < 256) (h : T x = 0) : x = 0 :=
+  tbl_inj x 0 hx (by omega) (by rw [show Gen.crc8Table.getD x 0 = T x from rfl, h]; exact T_zero.symm)
+
+theorem crcStep_eq (c b : Nat) : crcStep c b = T (c ^^^ b) := rfl
+
+theorem crcStep_lin (c d b e : Nat) (hc : c < 256) (hd : d < 256) (hb : b < 256) (he : e < 256) :
+    crcStep (c ^^^ d) (b ^^^ e) = crcStep c b ^^^ crcStep d e := by
+  simp only [crcStep_eq]
+  rw [← T_lin _ _ (xor_lt c b hc hb) (xor_lt d e hd he)]
+  congr 1
+  ac_rfl
+
+/-- bytewise xor of a message with an error pattern -/
+def xorL : Bytes → Bytes → Bytes
+  | a :: r, b :: t => (a ^^^ b) :: xorL r t
+  | _, _ => []
+
+theorem foldl_crc_lin (m : Bytes) : ∀ (e : Bytes) (c d : Nat), m.length = e.length → c < 256 → d < 256 →
+    (∀ b ∈ m, b < 256) → (∀ b ∈ e, b < 256) →
+    (xorL m e).foldl crcStep (c ^^^ d) = m.foldl crcStep c ^^^ e.foldl crcStep d := by
+  induction m with
+  | nil => intro e c d hl _ _ _ _; cases e <;> simp_all [xorL]
+  | cons a r ih =>
+    intro e c d hl hc hd hm he
+    cases e with
+    | nil => simp at hl
+    | cons b t =>
+      have ha := hm a List.mem_cons_self
+      have hb := he b List.mem_cons_self
+      simp only [xorL, List.foldl_cons]
+      rw [crcStep_lin c d a b hc hd ha hb]
+      exact ih t _ _ (by simpa using hl) (crcStep_lt c a hc ha) (crcStep_lt d b hd hb)
+        (fun x hx => hm x (List.mem_cons_of_mem _ hx)) (fun x hx => he x (List.mem_cons_of_mem _ hx))
+
+theorem zeros_from_zero (i : Nat) : (List.replicate i 0).foldl crcStep 0 = 0 := by
+  induction i with
+  | zero => rfl
+  | succ n ih => rw [List.replicate_succ, List.foldl_cons]; exact ih
+
+theorem zeros_keep_nonzero (k : Nat) : ∀ c, c < 256 → c ≠ 0 → (List.replicate k 0).foldl crcStep c ≠ 0 := by
+  induction k with
+  | zero => intro c _ h; simpa using h
+  | succ n ih =>
+    intro c hc h
+    rw [List.replicate_succ, List.foldl_cons]
+    apply ih _ (crcStep_lt c 0 hc (by omega))
+    intro h0
+    rw [crcStep_eq, Nat.xor_zero] at h0
+    exact h (T_eq_zero c hc h0)
+
+/-- the burst patterns: the low `j` bits of one byte (`e1`) and the high `8-j` bits of the next (`h * 2^j`) -/
+theorem crc8_burst_table : ((List.range 9).all fun j => (List.range (2 ^ j)).all fun e1 =>
+    (List.range (2 ^ (8 - j))).all fun h => (e1 == 0 && h == 0) || T e1 != h * 2 ^ j) = true := by
+  decide +kernel
+
+theorem xor_eq_zero_eq (a b : Nat) (h : a ^^^ b = 0) : a = b := by
+  have : a ^^^ b = a ^^^ a := by rw [h, Nat.xor_self]
+  exact (xor_cancel_left a b a this).symm
+
+theorem burst_bounds (j h e1 : Nat) (hj : j ≤ 8) (h1 : e1 < 2 ^ j) (h2 : h < 2 ^ (8 - j)) :
+    e1 < 256 ∧ h * 2 ^ j < 256 := by
+  have hp : 2 ^ (8 - j) * 2 ^ j = 256 := by
+    rw [← Nat.pow_add]; have : 8 - j + j = 8 := by omega
+    rw [this]
+  have hle : 2 ^ j ≤ 256 := by
+    exact Nat.pow_le_pow_right (show 0 < 2 by omega) hj
+  refine ⟨by omega, ?_⟩
+  have : h * 2 ^ j < 2 ^ (8 - j) * 2 ^ j := Nat.mul_lt_mul_of_pos_right h2 (Nat.two_pow_pos j)
+  omega
+
+theorem burst_residue_ne_zero (i k j h e1 : Nat) (hj : j ≤ 8) (h1 : e1 < 2 ^ j) (h2 : h < 2 ^ (8 - j))
+    (hnz : e1 ≠ 0 ∨ h ≠ 0) :
+    (List.replicate i 0 ++ [e1, h * 2 ^ j] ++ List.replicate k 0).foldl crcStep 0 ≠ 0 := by
+  obtain ⟨b1, b2⟩ := burst_bounds j h e1 hj h1 h2
+  have tb : T e1 ≠ h * 2 ^ j := by
+    have := crc8_burst_table
+    rw [List.all_eq_true] at this
+    have := this j (List.mem_range.mpr (by omega))
+    rw [List.all_eq_true] at this
+    have := this e1 (List.mem_range.mpr h1)
+    rw [List.all_eq_true] at this
+    have := this h (List.mem_range.mpr h2)
+    simp only [Bool.or_eq_true, Bool.and_eq_true, beq_iff_eq, bne_iff_ne, ne_eq] at this
+    rcases this with ⟨a, b⟩ | c
+    · rcases hnz with h' | h'
+      · exact absurd a h'
+      · exact absurd b h'
+    · exact c
+  have tlt : T e1 < 256 := tbl_lt e1 b1
+  simp only [List.foldl_append, zeros_from_zero, List.foldl_cons, List.foldl_nil]
+  apply zeros_keep_nonzero k _ (crcStep_lt _ _ (crcStep_lt 0 e1 (by omega) b1) b2)
+  rw [crcStep_eq, crcStep_eq, Nat.zero_xor]
+  intro h0
+  have := T_eq_zero _ (xor_lt _ _ tlt b2) h0
+  exact tb (xor_eq_zero_eq _ _ this)
+
+theorem xorL_length (m : Bytes) : ∀ e : Bytes, m.length = e.length → (xorL m e).length = m.length := by
+  induction m with
+  | nil => intro e _; cases e <;> rfl
+  | cons a r ih =>
+    intro e h
+    cases e with
+    | nil => simp at h
+    | cons b t => simp [xorL, ih t (by simpa using h)]
+
+theorem xorL_lt (m : Bytes) : ∀ e : Bytes, (∀ b ∈ m, b < 256) → (∀ b ∈ e, b < 256) → ∀ x ∈ xorL m e, x < 256 := by
+  induction m with
+  | nil => intro e _ _ x hx; cases e <;> simp [xorL] at hx
+  | cons a r ih =>
+    intro e hm he x hx
+    cases e with
+    | nil => simp [xorL] at hx
+    | cons b t =>
+      simp only [xorL, List.mem_cons] at hx
+      rcases hx with rfl | hx
+      · exact xor_lt _ _ (hm a List.mem_cons_self) (he b List.mem_cons_self)
+      · exact ih t (fun y hy => hm y (List.mem_cons_of_mem _ hy)) (fun y hy => he y (List.mem_cons_of_mem _ hy)) x hx
+
+/-- the CRC check of `opp.py` is the classical residue test: the CRC over the whole frame, CRC byte included, is 0 -/
+theorem crcOk_iff_residue (f : Bytes) (hne : f ≠ []) (hf : ∀ b ∈ f, b < 256) :
+    crcOk f = true ↔ f.foldl crcStep 255 = 0 := by
+  obtain ⟨d, x, rfl⟩ : ∃ d x, f = d ++ [x] := ⟨f.dropLast, f.getLast hne, (List.dropLast_concat_getLast hne).symm⟩
+  have hx : x < 256 := hf x (by simp)
+  have hd : crc8 d < 256 := foldl_crc_lt d 255 (by omega) (fun b hb => hf b (by simp [hb]))
+  have e : crcOk (d ++ [x]) = (crc8 d == x) := by simp [crcOk]
+  rw [e, List.foldl_append]
+  simp only [List.foldl_cons, List.foldl_nil, beq_iff_eq]
+  show crc8 d = x ↔ crcStep (crc8 d) x = 0
+  rw [crcStep_eq]
+  constructor
+  · intro h; rw [h, Nat.xor_self]; exact T_zero
+  · intro h; exact xor_eq_zero_eq _ _ (T_eq_zero _ (xor_lt _ _ hd hx) h)
+
 end MpfVerif.Framing
